@@ -48,6 +48,21 @@ Print Assumptions C05_reachable.
 Print Assumptions C05_meaning.
 Print Assumptions C05_counters_total.
 
+(* ---- the A side of SimpleARTMAP / ARTMAP (the quantifier names the A/B sides of the ARTMAP family; the B side of
+        ARTMAP is a plain BaseART, covered above): a one-epoch fit establishes, and every partial_fit preserves, the
+        same invariant on the A-side module, together with "one stored target per A-side label" ---- *)
+From ART Require Import SimpleARTMAP SAM_hist SAM_book.
+Theorem C05_simpleartmap_fit_establishes :
+  forall (N : Num) (K : Kernel N) (s s' : sam (N:=N)) X y m eps,
+    sam_fit K s X y 1 m eps = Some s' -> Inv (A s') /\ counted s' /\ hasW (A s') = hasL s'.
+Proof. exact @sam_fit_inv. Qed.
+Theorem C05_simpleartmap_partial_fit_preserves :
+  forall (N : Num) (K : Kernel N) (s s' : sam (N:=N)) X y m eps,
+    Inv (A s) -> counted s -> hasW (A s) = hasL s ->
+    sam_partial_fit K s X y m eps = Some s' -> Inv (A s') /\ counted s' /\ hasW (A s') = hasL s'.
+Proof. exact @sam_partial_fit_inv. Qed.
+Print Assumptions C05_simpleartmap_partial_fit_preserves.
+
 (* non-vacuity: a reachable 2-category state *)
 From Coq Require Import QArith.
 Open Scope Q_scope.
